@@ -102,6 +102,8 @@ type runState struct {
 	infraErr []string
 	extraV   []violation // violations added by Post
 	start    time.Time
+	// violations reproduced only together with the preceding cases of their shard: key -> shard count
+	historyDep map[string]int
 }
 
 type violation struct {
@@ -309,7 +311,7 @@ func cmdRun(args []string) int {
 	if os.Getenv("VERIF_KEEP") == "" {
 		defer os.RemoveAll(work)
 	}
-	st := &runState{spec: spec, tier: *tier, seed: seed, work: work, start: time.Now()}
+	st := &runState{spec: spec, tier: *tier, seed: seed, work: work, start: time.Now(), historyDep: map[string]int{}}
 	return st.run(*workers)
 }
 
@@ -443,6 +445,9 @@ func runWorker(bin string, u Unit, cfg, tier string, seed int64, shard, n int, o
 		"VERIF_PARAMS="+u.Params, "VERIF_DIR="+verifDir, "VERIF_REPO="+repoDir)
 	if only >= 0 {
 		env = append(env, "VERIF_ONLY="+strconv.FormatInt(only, 10))
+	} else if only < -1 {
+		// history replay: the whole shard up to and including case -(only+2)
+		env = append(env, "VERIF_UPTO="+strconv.FormatInt(-(only+2), 10))
 	}
 	if deadline > 0 {
 		env = append(env, "VERIF_DEADLINE_S="+strconv.Itoa(deadline))
@@ -683,6 +688,9 @@ func (st *runState) report() int {
 			}
 		}
 		path := st.writeReplay(v)
+		if _, ok := st.historyDep[v.Key+v.Config+v.Unit.Job]; ok {
+			v.Msg += " [history-dependent: reproduced 0/5 alone, 3/3 after the preceding cases of its shard in the same process]"
+		}
 		fmt.Printf("VIOLATION property=%s replay=%s\n  key=%s\n  %s\n", spec.ID, path, v.Key, v.Msg)
 		reported++
 		rc = 1
@@ -787,7 +795,38 @@ func (st *runState) confirm(v violation) (bool, int) {
 			}
 		}
 	}
-	return n == 5, n
+	if n == 5 || n > 0 {
+		return n == 5, n
+	}
+	// Not reproduced by the case alone: the observation may depend on the cases the same worker
+	// process ran before it (a cache, a memo, a lazily built table - state the library keeps between
+	// calls). Replay the shard's own prefix up to the case, three times; identical every time means the
+	// violation is deterministic given that call history, and it is reported as such.
+	shards := 1
+	for _, ur := range st.runs {
+		if ur.Unit.Job == v.Unit.Job && ur.Config == v.Config && ur.Unit.Pkg == v.Unit.Pkg {
+			shards = len(ur.Results)
+		}
+	}
+	h := 0
+	for i := 0; i < 3; i++ {
+		out := filepath.Join(st.work, fmt.Sprintf("confirm_hist_%d.json", i))
+		res, _, err := runWorker(bin, v.Unit, v.Config, st.tier, st.seed, int(v.Index%int64(shards)), shards, -(v.Index + 2), 0, out)
+		if err != nil {
+			continue
+		}
+		for _, rv := range res.Violations {
+			if k, _ := rv["key"].(string); k == v.Key {
+				h++
+				break
+			}
+		}
+	}
+	if h == 3 {
+		st.historyDep[v.Key+v.Config+v.Unit.Job] = shards
+		return true, 0
+	}
+	return false, 0
 }
 
 func (st *runState) writeReplay(v violation) string {
@@ -795,6 +834,10 @@ func (st *runState) writeReplay(v violation) string {
 		"property": st.spec.ID, "package": v.Unit.Pkg, "job": v.Unit.Job, "config": v.Config, "instr": v.Unit.Instr,
 		"params": v.Unit.Params, "race": v.Unit.Race,
 		"tier": st.tier, "seed": st.seed, "index": v.Index, "key": v.Key, "msg": v.Msg, "detail": v.Detail,
+	}
+	if sh, ok := st.historyDep[v.Key+v.Config+v.Unit.Job]; ok {
+		rec["history_shards"] = sh
+		rec["msg"] = v.Msg + " [history-dependent: not reproduced by the case alone, reproduced 3/3 when the preceding cases of its shard run in the same process]"
 	}
 	b, _ := json.MarshalIndent(rec, "", " ")
 	name := fmt.Sprintf("%016x.json", hashStr(v.Key+v.Config+v.Unit.Job))
@@ -816,6 +859,7 @@ func cmdReplay(args []string) int {
 		Property, Package, Job, Config, Instr, Params, Tier, Key, Msg string
 		Race                                                          bool
 		Seed, Index                                                   int64
+		HistoryShards                                                 int `json:"history_shards"`
 	}
 	if err := json.Unmarshal(b, &rec); err != nil {
 		fmt.Fprintln(os.Stderr, err)
@@ -857,7 +901,12 @@ func cmdReplay(args []string) int {
 		fmt.Println("HARNESS-BUILD-FAILED", err)
 		return 2
 	}
-	res, _, err := runWorker(bin, u, rec.Config, rec.Tier, rec.Seed, 0, 1, rec.Index, 0, filepath.Join(work, "replay.json"))
+	shard, shards, only := 0, 1, rec.Index
+	if rec.HistoryShards > 0 {
+		// history-dependent record: the case together with the preceding cases of its shard
+		shard, shards, only = int(rec.Index%int64(rec.HistoryShards)), rec.HistoryShards, -(rec.Index + 2)
+	}
+	res, _, err := runWorker(bin, u, rec.Config, rec.Tier, rec.Seed, shard, shards, only, 0, filepath.Join(work, "replay.json"))
 	if err != nil {
 		fmt.Println("HARNESS-ERROR", err)
 		return 2
